@@ -167,6 +167,11 @@ MedRefines == phase = "med_done" => c.x[1][SSortPos(c.x[1], DOMAIN c.x[1])[st.k]
 ClipRefines  == phase = "cl_done" => st.S \in SClipFinals(c)
 ClipNonEmpty == phase \in {"cl", "cl_done"} => st.S # {} /\ st.k <= c.niter
 ClipStopsOK  == (phase = "cl_done" /\ st.k < c.niter) => SClipStops(c, st.S)
+\* the predicate forms used by the trace specification agree with the set forms, on every subset
+ClipPredsAgree == phase = "cl" =>
+    \A S \in SUBSET DOMAIN c.x :
+        /\ SClipStopsP(c, S) <=> SClipStops(c, S)
+        /\ \A U \in SUBSET DOMAIN c.x : SClipInSucc(c, S, U) <=> U \in SClipSucc(c, S)
 ClipShrinks  == [][(phase = "cl" /\ phase' = "cl") =>
                      (st'.S \subseteq st.S /\ (st'.S # st.S <=> st'.k = st.k + 1) /\ (st'.S # st.S => ~st.done))]_vars
 \* every reported subset has a defined, consistent set of statistics (exercises the formulas
